@@ -13,10 +13,10 @@ attribute [local irreducible] Goml.GoCompile.vn Goml.GoCompile.gid Goml.GoCompil
 
 theorem stepL {env : Env} {file : AFile} {G : List String} {P : Prog} {F : GFile} {n : Nat}
     (ha : SimA env file G P F n) (hL : SimL env file G P F n) : SimL env file G P F (n + 1) := by
-  intro cv st c b η Γ K ρ w gρ gw Bad hfc hcb hfb hbu hrel hkrel hw hinv htgt hus hcal
+  intro cv st c b η Γ K ρ w gρ gw Bad hfc hcb hfb hbu hrel hkrel hw hinv htgt hus hfx hcal
   obtain ⟨htk, htne⟩ := htgt
-  have hcalc : ∀ x, x ∈ calleesA c → x ∈ Bad := fun x hx => hcal x (List.mem_append_left _ hx)
-  have hcalb : ∀ x, x ∈ calleesA b → x ∈ Bad := fun x hx => hcal x (List.mem_append_right _ hx)
+  have hcalc : ∀ x, x ∈ calleesA (Γ.map (·.1)) c → x ∈ Bad := fun x hx => hcal x (List.mem_append_left _ hx)
+  have hcalb : ∀ x, x ∈ calleesA (Γ.map (·.1)) b → x ∈ Bad := fun x hx => hcal x (List.mem_append_right _ hx)
   -- the three parts of the loop body
   generalize hA : (compileA env (.assign cv) st c).1 = A at *
   generalize hst2 : (compileA env (.assign cv) st c).2 = st2 at *
@@ -27,7 +27,7 @@ theorem stepL {env : Env} {file : AFile} {G : List String} {P : Prog} {F : GFile
   generalize hB : (compileA env .effect st2 b).1 = B at *
   have hinvA : GInv Bad A gρ := hinv.left
   rw [Sem.eval]
-  have hAsim := ha (.assign cv) st c η Γ K ρ w gρ gw Bad hfc hrel hkrel hw (hA ▸ hinvA) ⟨htk, htne⟩ hus hcalc
+  have hAsim := ha (.assign cv) st c η Γ K ρ w gρ gw Bad hfc hrel hkrel hw (hA ▸ hinvA) ⟨htk, htne⟩ hus hfx hcalc
   rw [hA, hcb] at hAsim
   revert hAsim
   cases hres : Sem.eval n P ρ w c.toExpr with
@@ -79,7 +79,7 @@ theorem stepL {env : Env} {file : AFile} {G : List String} {P : Prog} {F : GFile
         have h3 := GInv.right (a := [GStmt.ite (.un .not .bool (.var (gid cv) .bool)) [.brk] none]) (D := [])
           (U := D1 ++ updateG gρ (gid cv) (.bool true)) h2 rfl (fun y hy => by cases hy)
         simpa using h3
-      have hBsim := ha .effect st2 b η1 Γ K ρ w1 (D1 ++ updateG gρ (gid cv) (.bool true)) gw1 Bad hfb hrel1 hkrel h5 (hB ▸ hinvB) hbu hus hcalb
+      have hBsim := ha .effect st2 b η1 Γ K ρ w1 (D1 ++ updateG gρ (gid cv) (.bool true)) gw1 Bad hfb hrel1 hkrel h5 (hB ▸ hinvB) hbu hus (hfx.mono hle1) hcalb
       rw [hB] at hBsim
       revert hBsim
       cases hresb : Sem.eval n P ρ w1 b.toExpr with
@@ -104,7 +104,7 @@ theorem stepL {env : Env} {file : AFile} {G : List String} {P : Prog} {F : GFile
         have hinv' : GInv Bad (A ++ (GStmt.ite (.un .not .bool (.var (gid cv) .bool)) [.brk] none :: B))
             (updateG gρ (gid cv) (.bool true)) := hinv.keys_eq (keys_update _ _ _)
         have hnext := hL cv st c b η2 Γ K ρ w2 (updateG gρ (gid cv) (.bool true)) gw2 Bad hfc hcb hfb hbu hrel' hkrel g5
-          (by rw [hbody]; exact hinv') ⟨by rw [keys_update]; exact htk, htne⟩ hus hcal
+          (by rw [hbody]; exact hinv') ⟨by rw [keys_update]; exact htk, htne⟩ hus (hfx.mono (Hp.le_trans hle1 hle2)) hcal
         rw [hbody] at hnext
         revert hnext
         cases hresw : Sem.eval n P ρ w2 (.while c.toExpr b.toExpr) with
